@@ -160,10 +160,25 @@ func (it *Interp) invoke(fn *ssa.Function, st *State, instr ssa.CallInstruction,
 	// canonicalise the visible part of the reachable heap: an interior
 	// pointer exposes only the leaves below it (frame rule).
 	order, vis := visible(st.Heap, all)
+	// ambient objects (the analysis's own model state, addressed by name from
+	// the hooks) accompany every call under their own name
+	ambient := map[string]bool{}
+	for _, id := range it.Cfg.Ambient {
+		if _, ok := st.Heap[id]; ok {
+			ambient[id] = true
+			if len(vis[id]) == 0 {
+				order = append(order, id)
+			}
+			vis[id] = []string{""}
+		}
+	}
 	fwd := map[string]string{}
 	back := map[string]string{}
 	for i, id := range order {
 		n := fmt.Sprintf("in%d", i)
+		if ambient[id] {
+			n = id
+		}
 		fwd[id] = n
 		back[n] = id
 	}
@@ -397,6 +412,9 @@ func (it *Interp) paramRelevant(p *ssa.Parameter) bool {
 				if f == nil || f.Blocks == nil || !it.Cfg.InModule(f) {
 					if _, isB := c.Value.(*ssa.Builtin); isB {
 						res = true // copy/append of a marker constant etc.
+					}
+					if it.Cfg.NoMerge {
+						res = true // exact runs: the hooks model library calls on the constants they receive
 					}
 					continue
 				}
